@@ -3,22 +3,28 @@
 // Re-run: /verif/bin/check C20 --replay /verif/replays/C20/resolve_spec_4x4.rs
 // Failing check: assertion ""C20: resolve(a, r) == normalize(dirname(a) / r)""
 #[test]
-fn kani_concrete_playback_resolve_spec_4x4_2345826363454238794() {
+fn kani_concrete_playback_resolve_spec_4x4_12945487943630235886() {
     let concrete_vals: std::vec::Vec<std::vec::Vec<u8>> = std::vec![
         // 4ul
         std::vec![4, 0, 0, 0, 0, 0, 0, 0],
-        // 1
-        std::vec![1],
-        // 1
-        std::vec![1],
+        // 0
+        std::vec![0],
+        // 0
+        std::vec![0],
         // 3
         std::vec![3],
-        // 1
-        std::vec![1],
-        // 1ul
-        std::vec![1, 0, 0, 0, 0, 0, 0, 0],
+        // 0
+        std::vec![0],
+        // 4ul
+        std::vec![4, 0, 0, 0, 0, 0, 0, 0],
         // 3
         std::vec![3],
+        // 0
+        std::vec![0],
+        // 0
+        std::vec![0],
+        // 1
+        std::vec![1],
     ];
     kani::concrete_playback_run(concrete_vals, resolve_spec_4x4);
 }
